@@ -73,8 +73,10 @@ def gen_case(rng, cid, maxlen, ndig, ntag, universe):
                 dig, ann = rng.choice(rdigs), {SUBJ: rng.choice(DIGS[:ndig])}
             children = None
             if rng.random() < 0.3:
-                children = [mk(rng.choice(mdigs), None if (universe != "beyond" or rng.random() < 0.8) else {"k": "v"})
-                            for _ in range(rng.randint(0, 2))]
+                # (an index lists manifests and, now and then, plain blobs: descriptors of another media type are not children)
+                children = [mk(rng.choice(mdigs), None if (universe != "beyond" or rng.random() < 0.8) else {"k": "v"},
+                               mt=(MT_IMG if rng.random() < 0.75 else rng.choice(["application/octet-stream", "application/vnd.oci.image.layer.v1.tar+gzip"])))
+                            for _ in range(rng.randint(0, 3))]
             ops.append(dict(op="add", d=mk(dig, ann, mt=MT_IDX if (ann and SUBJ in ann) else MT_IMG),
                             children=children, copy=rng.random() < 0.3))
         elif r < 0.92:
@@ -213,7 +215,13 @@ def oracle(ctx, case, out):
         # I5' a digest recorded through AddChildren is found until it is removed, whatever else is listed or removed meanwhile
         if op["op"] == "addchildren":
             recorded |= {c["dig"] for c in (op.get("children") or []) if c["dig"]}
-        elif op["op"] in ("rm", "add") and op["d"]["dig"]:
+        elif op["op"] == "add" and op.get("children"):
+            # the children option: a child listed as a manifest that is not at the top level is (or becomes) a recorded child,
+            # wherever it stands in the list
+            for c in op["children"]:
+                if c["dig"] and c["dig"] != op["d"]["dig"] and c["mt"] in (MT_IMG, MT_IDX) and not any(d_["dig"] == c["dig"] for d_ in prev_top):
+                    recorded.add(c["dig"])
+        if op["op"] in ("rm", "add") and op["d"]["dig"]:
             # removed by digest - or listed at the top level from now on (AddDesc moves a child entry up), where removals by tag apply
             recorded.discard(op["d"]["dig"])
         for qi, q in enumerate(case["queries"]):
